@@ -155,6 +155,9 @@ type Policy struct {
 	WatchGone   int  // permille per served WATCH request: answer 410 Gone, which makes the reflector relist (tombstones for what vanished meanwhile)
 	FaultFilter func(r *ReqRec) bool
 	Batch       int // permille per step: answer every parked call in one step (co-release)
+	// ForceFault, when it returns a fault kind, is injected whatever the rates say
+	// (scripted bursts, e.g. a conflict on every attempt of one retry loop)
+	ForceFault func(r *ReqRec) string
 }
 
 // EnvOp is one environment operation offered by the scenario.
@@ -1198,8 +1201,16 @@ func (w *World) StepOnce(p *Policy) bool {
 			w.checkInvariants()
 			return w.Violation == nil
 		}
-		if p.FaultFilter != nil {
+		if p.FaultFilter != nil || p.ForceFault != nil {
 			w.prepare(a.req) // the filter may look at the routed fields (verb, resource)
+		}
+		if p.ForceFault != nil {
+			if k := p.ForceFault(a.req); k != "" {
+				w.Serve(a.req, k)
+				w.settle()
+				w.checkInvariants()
+				return w.Violation == nil
+			}
 		}
 		if p.APIFault > 0 && len(p.APIFaults) > 0 && (p.FaultFilter == nil || p.FaultFilter(a.req)) && t.Chance(p.APIFault, "apifault?") {
 			fault = p.APIFaults[t.Pick(len(p.APIFaults), "apifault")]
